@@ -103,7 +103,11 @@ pub mod blocks {
             kani::cover!(r.is_none() && hlen == HMAX, "no occurrence at max length");
             kani::cover!(matches!(r, Some(i) if i > 0 && i + NLEN < hlen), "occurrence strictly inside");
         }
-        kani::cover!(n[0] == n[2] && n[1] == n[3] && n[0] != n[1], "period-2 needle");
+        if NLEN >= 4 {
+            kani::cover!(n[0] == n[2] && n[1] == n[NLEN - 1] && n[0] != n[1], "period-2 needle");
+        } else {
+            kani::cover!(n[0] == n[NLEN - 1] && n[0] != n[1], "needle with a border");
+        }
     }
 
     /// Two-Way over a small alphabet with concrete lengths (deeper bound).
@@ -202,10 +206,10 @@ pub mod blocks {
     }
 }
 
-inst!(b_twoway_fwd_3_8, [props=C12+C03 xprops=C05+C14 tier=quick cfg=x86std+generic t=1500 role=twoway-fwd uw=@TW:3:8;oracle:5], 4, blocks::twoway::<3, 8>(false, 1));
-inst!(b_twoway_rev_3_8, [props=C12+C04 xprops=C05+C14 tier=quick cfg=x86std+generic t=1500 role=twoway-rev uw=@TW:3:8;oracle:5], 4, blocks::twoway::<3, 8>(true, 1));
-inst!(b_twoway_fwd_n4_8, [props=C12+C03 xprops=C05+C14 tier=quick cfg=x86std t=1800 role=twoway-fwd uw=@TW:4:8;oracle:6], 4, blocks::twoway_n::<4, 8>(false));
-inst!(b_twoway_rev_n4_8, [props=C12+C04 xprops=C05+C14 tier=quick cfg=x86std t=1800 role=twoway-rev uw=@TW:4:8;oracle:6], 4, blocks::twoway_n::<4, 8>(true));
+inst!(b_twoway_fwd_3_8, [props=C12+C03 xprops=C05+C14 tier=thorough cfg=x86std t=3600 role=twoway-fwd uw=@TW:3:8;oracle:5], 4, blocks::twoway::<3, 8>(false, 1));
+inst!(b_twoway_rev_3_8, [props=C12+C04 xprops=C05+C14 tier=thorough cfg=x86std t=3600 role=twoway-rev uw=@TW:3:8;oracle:5], 4, blocks::twoway::<3, 8>(true, 1));
+inst!(b_twoway_fwd_n4_8, [props=C12+C03 xprops=C05+C14 tier=thorough cfg=x86std t=1800 role=twoway-fwd uw=@TW:4:8;oracle:6], 4, blocks::twoway_n::<4, 8>(false));
+inst!(b_twoway_rev_n4_8, [props=C12+C04 xprops=C05+C14 tier=thorough cfg=x86std t=1800 role=twoway-rev uw=@TW:4:8;oracle:6], 4, blocks::twoway_n::<4, 8>(true));
 inst!(b_twoway_fwd_4_8, [props=C12 xprops=C05+C14 tier=thorough cfg=x86std t=3600 role=twoway-fwd uw=@TW:4:8;oracle:6], 4, blocks::twoway::<4, 8>(false, 4));
 inst!(b_twoway_rev_4_8, [props=C12 xprops=C05+C14 tier=thorough cfg=x86std t=5400 role=twoway-rev uw=@TW:4:8;oracle:6], 4, blocks::twoway::<4, 8>(true, 4));
 inst!(b_twoway_fwd_5_10, [props=C12 xprops=C05+C14 tier=thorough cfg=x86std t=7200 role=twoway-fwd uw=@TW:5:10;oracle:7], 4, blocks::twoway::<5, 10>(false, 5));
@@ -488,3 +492,8 @@ inst!(b_rk_fwd_4_10, [props=C12 xprops=C05+C14 tier=thorough cfg=x86std t=5400 r
 inst!(b_rk_rev_4_10, [props=C12 xprops=C05+C14 tier=thorough cfg=x86std t=5400 role=rabinkarp-rev uw=is_equal_raw:3;Hash:6;rabinkarp::Finder::new:6;rabinkarp::FinderRev::new:6;find_raw:12;rfind_raw:12;oracle:6], 4, blocks::rabinkarp::<4, 10>(true, 0));
 inst!(m_oneshot_fwd_4_10, [props=C03 xprops=C05+C14 tier=thorough cfg=x86std t=5400 role=memmem-find-oneshot uw=is_equal_raw:3;Hash:6;rabinkarp::Finder::new:6;rabinkarp::FinderRev::new:6;find_raw:12;rfind_raw:12;oracle:6], 4, meta::oneshot::<4, 10>(false));
 inst!(m_oneshot_rev_4_10, [props=C04 xprops=C05+C14 tier=thorough cfg=x86std t=5400 role=memmem-rfind-oneshot uw=is_equal_raw:3;Hash:6;rabinkarp::Finder::new:6;rabinkarp::FinderRev::new:6;find_raw:12;rfind_raw:12;oracle:6], 4, meta::oneshot::<4, 10>(true));
+
+inst!(b_twoway_fwd_n3_8, [props=C12+C03 xprops=C05+C14 tier=quick cfg=x86std t=1800 role=twoway-fwd uw=@TW:3:8;oracle:5], 4, blocks::twoway_n::<3, 8>(false));
+inst!(b_twoway_rev_n3_8, [props=C12+C04 xprops=C05+C14 tier=quick cfg=x86std t=1800 role=twoway-rev uw=@TW:3:8;oracle:5], 4, blocks::twoway_n::<3, 8>(true));
+inst!(b_twoway_fwd_n4_7, [props=C12+C03 xprops=C05+C14 tier=quick cfg=x86std t=1800 role=twoway-fwd uw=@TW:4:7;oracle:6], 4, blocks::twoway_n::<4, 7>(false));
+inst!(b_twoway_rev_n4_7, [props=C12+C04 xprops=C05+C14 tier=quick cfg=x86std t=1800 role=twoway-rev uw=@TW:4:7;oracle:6], 4, blocks::twoway_n::<4, 7>(true));
